@@ -413,13 +413,12 @@ def _bcd_epoch(X, Y, W, XW, lc, datafit, penalty, ws):
     """
     n_tasks = Y.shape[1]
     for j in ws:
-        if lc[j] == 0.:
-            continue
+        stepsize = 1 / lc[j] if lc[j] != 0 else 1000
         Xj = X[:, j]
         old_W_j = W[j, :].copy()  # copy is very important here
         W[j, :] = penalty.prox_1feat(
-            W[j, :] - datafit.gradient_j(X, Y, W, XW, j) / lc[j],
-            1 / lc[j], j)
+            W[j, :] - datafit.gradient_j(X, Y, W, XW, j) * stepsize,
+            stepsize, j)
         if not np.all(W[j, :] == old_W_j):
             for k in range(n_tasks):
                 tmp = W[j, k] - old_W_j[k]
@@ -464,12 +463,11 @@ def _bcd_epoch_sparse(X_data, X_indptr, X_indices, Y, W, XW, lc, datafit, penalt
         Features to be updated.
     """
     for j in ws:
-        if lc[j] == 0.:
-            continue
+        stepsize = 1 / lc[j] if lc[j] != 0 else 1000
         old_W_j = W[j, :].copy()
         grad_j = datafit.gradient_j_sparse(X_data, X_indptr, X_indices, Y, XW, j)
         W[j] = penalty.prox_1feat(
-            old_W_j - grad_j / lc[j], 1 / lc[j], j)
+            old_W_j - grad_j * stepsize, stepsize, j)
         # TODO: could be enhanced?
         diff = W[j, :] - old_W_j
         if not np.all(diff == 0):
